@@ -20,6 +20,9 @@
 (*   x      label -> [status, m, rem, seq, price]   (exchange; absent: none)*)
 (*   xseq   exchange sequence counter                                       *)
 (*   pool   Seq([kind, orders])  queue of the execution thread              *)
+(*   wire   <<>> or <<[kind, orders, oc, codes, reported, applied]>>: the    *)
+(*          exchange has applied / answered and whose response is not yet   *)
+(*          handled                                                         *)
 (*   hq     Seq(Seq(entry))      polled lists waiting for the main loop     *)
 (*   polled highest sequence number the poller has seen                     *)
 (***************************************************************************)
@@ -46,7 +49,7 @@ SetExec(r) == IF r.status = "COMPLETE" THEN r ELSE [r EXCEPT !.status = "EXECUTA
 \* BaseOrder.execution_complete()
 SetComplete(r) == [r EXCEPT !.status = "COMPLETE", !.newp = 0]
 
-InitState == [ord |-> <<>>, x |-> <<>>, xseq |-> 0, pool |-> <<>>, hq |-> <<>>, polled |-> 0]
+InitState == [ord |-> <<>>, x |-> <<>>, xseq |-> 0, pool |-> <<>>, wire |-> <<>>, hq |-> <<>>, polled |-> 0]
 
 -----------------------------------------------------------------------------
 (* requests *)
@@ -102,60 +105,98 @@ StepXFill(s, e) == XFill(s, e.a.o, e.a.amount)
 StepXCancel(s, e) == XCancel(s, e.a.o)
 
 -----------------------------------------------------------------------------
-(* execution thread: the head of the pool is run.  e.a = [kind, oc, codes, missing]:
-   oc "answer" (codes: order -> return code, 0 = fine; missing: orders without a report),
-      "raise" (the call failed, nothing applied), "raise_applied" (applied, but no answer) *)
+(* execution thread (one thread: one call at a time).  The head of the pool is CALLED: the request is built
+   from the orders of the package and sent, the exchange applies it and decides its answer, which is then on the
+   wire; later the RESPONSE is handled by BetdaqExecution.  In between the main thread goes on: requests,
+   polls taken and processed, fills.
+   call  e.a = [kind, oc, codes, missing]:
+         oc "answer" (codes: order -> return code, 0 = fine; missing: cancelled orders without a report),
+            "raise" (the call failed, nothing applied), "raise_applied" (applied, but no answer)
+   resp  handles s.wire = [kind, orders, oc, codes (as answered), reported (cancel reports)]
+   nobuild  an update package whose orders have lost their update data: building the request fails before
+         anything is sent, every order is reset
+   run   = call followed at once by resp (or nobuild)                                                        *)
 Sent(s, p) == SelectSeq(p.orders, LAMBDA o : Has(s.ord, o) /\ s.ord[o].status # "VIOLATION")
+Cancellable(s, o) == Has(s.x, o) /\ OpenAtExchange(s.x[o].status)
+UpdateRefused(s, o) == ~(Has(s.x, o) /\ OpenAtExchange(s.x[o].status))       \* the exchange answers with an error code
+\* an update is sent only if every order of the package still carries its update data (an order that
+\* was reset or completed meanwhile has none)
+Updatable(s, os) == os # <<>> /\ \A i \in DOMAIN os : s.ord[os[i]].newp # 0
+Buildable(s) == s.pool # <<>> /\ (Head(s.pool).kind = "UPDATE" => Updatable(s, Sent(s, Head(s.pool))))
 
-RECURSIVE PlaceSeq(_, _, _)
-PlaceSeq(s, os, a) ==
+\* -- the exchange's side of a call, order by order; returns the state and the answer per order
+RECURSIVE XPlace(_, _, _)
+XPlace(s, os, a) ==
     IF os = <<>> THEN s
     ELSE LET o == Head(os)
              applied == a.oc = "raise_applied" \/ (a.oc = "answer" /\ a.codes[o] = 0)
-             s1 == IF applied /\ ~Has(s.x, o) THEN XNew(s, o) ELSE s
-             s2 == IF a.oc = "answer" /\ a.codes[o] = 0
-                   THEN [s1 EXCEPT !.ord[o] = SetExec([s1.ord[o] EXCEPT !.bet = TRUE, !.rem = s1.ord[o].size])]    \* (the receipt carries the unmatched stake)
-                   ELSE [s1 EXCEPT !.ord[o] = SetComplete(@)]               \* error code / no answer: execution_complete()
-         IN PlaceSeq(s2, Tail(os), a)
-
-\* the exchange cancels what is still open; only those orders are reported back
-Cancellable(s, o) == Has(s.x, o) /\ OpenAtExchange(s.x[o].status)
-RECURSIVE CancelSeq(_, _, _)
-CancelSeq(s, os, a) ==
-    IF os = <<>> THEN s
+         IN XPlace(IF applied /\ ~Has(s.x, o) THEN XNew(s, o) ELSE s, Tail(os), a)
+RECURSIVE XCancelAll(_, _, _)
+XCancelAll(s, os, a) ==
+    IF os = <<>> \/ a.oc = "raise" THEN s ELSE XCancelAll(XCancel(s, Head(os)), Tail(os), a)
+RECURSIVE XUpdateAll(_, _, _)
+XUpdateAll(s, os, a) ==
+    IF os = <<>> \/ a.oc = "raise" THEN s
     ELSE LET o == Head(os)
-             applied == a.oc \in {"answer", "raise_applied"} /\ Cancellable(s, o)
-             reported == a.oc = "answer" /\ Cancellable(s, o) /\ o \notin a.missing
-             s1 == IF applied THEN XCancel(s, o) ELSE s
-             s2 == IF reported THEN [s1 EXCEPT !.ord[o] = SetComplete(@)]
-                   ELSE [s1 EXCEPT !.ord[o] = SetExec(@)]                \* not returned / no answer: reset
-         IN CancelSeq(s2, Tail(os), a)
+             fine == ~UpdateRefused(s, o) /\ (a.oc = "raise_applied" \/ a.codes[o] = 0)
+         IN XUpdateAll(IF fine THEN XUpdate(s, o, s.ord[o].newp) ELSE s, Tail(os), a)
 
-\* an update is sent only if every order of the package still carries its update data (an order that
-\* was reset or completed meanwhile has none: building the request fails, nothing is sent, all are reset)
-Updatable(s, os) == \A i \in DOMAIN os : s.ord[os[i]].newp # 0
-UpdateRefused(s, o) == ~(Has(s.x, o) /\ OpenAtExchange(s.x[o].status))       \* the exchange answers with an error code
-RECURSIVE UpdateSeq(_, _, _)
-UpdateSeq(s, os, a) ==
-    IF os = <<>> THEN s
-    ELSE LET o == Head(os)
-             fine == a.oc = "answer" /\ a.codes[o] = 0 /\ ~UpdateRefused(s, o)
-             applied == (fine \/ (a.oc = "raise_applied" /\ ~UpdateRefused(s, o)))
-             s1 == IF applied THEN XUpdate(s, o, s.ord[o].newp) ELSE s
-             s2 == IF fine THEN s1                                         \* stays UPDATING until the poll shows the change
-                   ELSE [s1 EXCEPT !.ord[o] = SetExec(@)]
-         IN UpdateSeq(s2, Tail(os), a)
-RECURSIVE ResetSeq(_, _)
-ResetSeq(s, os) == IF os = <<>> THEN s ELSE ResetSeq([s EXCEPT !.ord[Head(os)] = SetExec(@)], Tail(os))
-
-StepRun(s, e) ==
+StepCall(s, e) ==
     LET p == Head(s.pool)
         s0 == [s EXCEPT !.pool = Tail(s.pool)]
         os == Sent(s, p)
-    IN IF p.kind = "PLACE" THEN PlaceSeq(s0, os, e.a)
-       ELSE IF p.kind = "CANCEL" THEN CancelSeq(s0, os, e.a)
-       ELSE IF Updatable(s0, os) /\ os # <<>> THEN UpdateSeq(s0, os, e.a)
-       ELSE ResetSeq(s0, os)
+        a == e.a
+        s1 == IF p.kind = "PLACE" THEN XPlace(s0, os, a) ELSE IF p.kind = "CANCEL" THEN XCancelAll(s0, os, a) ELSE XUpdateAll(s0, os, a)
+        \* the answer as the exchange gives it (judged on the state the call met)
+        codes == [o \in SeqToSet(os) |-> IF a.oc # "answer" \/ p.kind = "CANCEL" THEN 0      \* (cancel reports carry no code)
+                                         ELSE IF p.kind = "UPDATE" /\ UpdateRefused(s0, o) /\ a.codes[o] = 0 THEN 136 ELSE a.codes[o]]
+        reported == IF p.kind = "CANCEL" /\ a.oc = "answer"
+                    THEN SelectSeq(os, LAMBDA o : Cancellable(s0, o) /\ o \notin a.missing) ELSE <<>>
+        \* the orders for which the exchange applied the request
+        applied == SelectSeq(os, LAMBDA o :
+                      IF p.kind = "PLACE" THEN a.oc = "raise_applied" \/ (a.oc = "answer" /\ a.codes[o] = 0)
+                      ELSE IF p.kind = "CANCEL" THEN a.oc # "raise" /\ Cancellable(s0, o)
+                      ELSE a.oc # "raise" /\ ~UpdateRefused(s0, o) /\ (a.oc = "raise_applied" \/ a.codes[o] = 0))
+    IN [s1 EXCEPT !.wire = <<[kind |-> p.kind, orders |-> os, oc |-> a.oc, codes |-> codes, reported |-> reported, applied |-> applied]>>]
+
+\* -- BetdaqExecution.execute_place / _cancel / _update on the answer
+RECURSIVE RPlace(_, _, _)
+RPlace(s, os, w) ==
+    IF os = <<>> THEN s
+    ELSE LET o == Head(os)
+             r == s.ord[o]
+             s2 == IF w.oc = "answer" /\ w.codes[o] = 0
+                   \* (the receipt carries the unmatched stake; a poll processed meanwhile has the newer figures)
+                   THEN [s EXCEPT !.ord[o] = SetExec([r EXCEPT !.bet = TRUE, !.rem = IF r.seq = -1 THEN r.size ELSE @])]
+                   ELSE [s EXCEPT !.ord[o] = SetComplete(@)]               \* error code / no answer: execution_complete()
+         IN RPlace(s2, Tail(os), w)
+RECURSIVE RCancel(_, _, _)
+RCancel(s, os, w) ==
+    IF os = <<>> THEN s
+    ELSE LET o == Head(os)
+             s2 == IF w.oc = "answer" /\ o \in SeqToSet(w.reported) THEN [s EXCEPT !.ord[o] = SetComplete(@)]
+                   ELSE [s EXCEPT !.ord[o] = SetExec(@)]                 \* not returned / no answer: reset
+         IN RCancel(s2, Tail(os), w)
+RECURSIVE RUpdate(_, _, _)
+RUpdate(s, os, w) ==
+    IF os = <<>> THEN s
+    ELSE LET o == Head(os)
+             s2 == IF w.oc = "answer" /\ w.codes[o] = 0 THEN s          \* stays UPDATING until the poll shows the change
+                   ELSE [s EXCEPT !.ord[o] = SetExec(@)]
+         IN RUpdate(s2, Tail(os), w)
+RECURSIVE ResetSeq(_, _)
+ResetSeq(s, os) == IF os = <<>> THEN s ELSE ResetSeq([s EXCEPT !.ord[Head(os)] = SetExec(@)], Tail(os))
+
+StepResp(s, e) ==
+    IF s.wire = <<>> THEN s
+    ELSE LET w == s.wire[1]
+             s0 == [s EXCEPT !.wire = <<>>]
+             \* (the handlers walk the orders the package holds now: an order refused meanwhile is not among them)
+             os == SelectSeq(w.orders, LAMBDA o : s.ord[o].status # "VIOLATION")
+         IN IF w.kind = "PLACE" THEN RPlace(s0, os, w) ELSE IF w.kind = "CANCEL" THEN RCancel(s0, os, w) ELSE RUpdate(s0, os, w)
+
+StepNoBuild(s, e) == LET p == Head(s.pool) IN ResetSeq([s EXCEPT !.pool = Tail(s.pool)], Sent(s, p))
+StepRun(s, e) == IF Buildable(s) THEN StepResp(StepCall(s, e), e) ELSE StepNoBuild(s, e)
 
 -----------------------------------------------------------------------------
 (* polled order stream *)
@@ -192,6 +233,9 @@ StepProc(s, e) == IF s.hq = <<>> THEN s ELSE ProcSeq([s EXCEPT !.hq = Tail(s.hq)
 Step(s, e) ==
     CASE e.ev = "req" -> StepReq(s, e)
       [] e.ev = "run" -> StepRun(s, e)
+      [] e.ev = "call" -> StepCall(s, e)
+      [] e.ev = "resp" -> StepResp(s, e)
+      [] e.ev = "nobuild" -> StepNoBuild(s, e)
       [] e.ev = "xfill" -> StepXFill(s, e)
       [] e.ev = "xcancel" -> StepXCancel(s, e)
       [] e.ev = "snap" -> StepSnap(s, e)
@@ -205,12 +249,19 @@ Step(s, e) ==
 FinalityBroken(a, b) ==
     {o \in DOMAIN a.ord \cap DOMAIN b.ord :
         a.ord[o].status = "COMPLETE" /\ ~(b.ord[o].status = "COMPLETE" /\ b.ord[o].m >= a.ord[o].m)}
-\* at most one operation per order outstanding
-InFlightCount(s, o) == Cardinality({i \in DOMAIN s.pool : o \in SeqToSet(s.pool[i].orders)})
+\* at most one operation per order outstanding (queued or on the wire)
+\* (an update that the exchange has applied is confirmed by the poll, by design before or after its response is
+\*  handled: from then on it is not outstanding for the order any more)
+Outstanding(s) == s.pool \o [i \in DOMAIN s.wire |->
+                     [kind |-> s.wire[i].kind,
+                      orders |-> IF s.wire[i].kind = "UPDATE"
+                                 THEN SelectSeq(s.wire[i].orders, LAMBDA o : o \notin SeqToSet(s.wire[i].applied)) ELSE s.wire[i].orders]]
+InFlightCount(s, o) == Cardinality({i \in DOMAIN Outstanding(s) : o \in SeqToSet(Outstanding(s)[i].orders)})
 \* while a request for an order is queued or on the wire the order shows the in-flight status of that request
 \* (or has meanwhile completed for another reason: matched or cancelled at the exchange, seen through the poll)
 InFlightWrong(s) ==
-    UNION {{<<s.pool[i].kind, o>> : o \in {k \in SeqToSet(s.pool[i].orders) : Has(s.ord, k) /\ s.ord[k].status \notin {InFlightOf(s.pool[i].kind), "COMPLETE"}}} :
-           i \in DOMAIN s.pool}
+    LET P == Outstanding(s) IN
+    UNION {{<<P[i].kind, o>> : o \in {k \in SeqToSet(P[i].orders) : Has(s.ord, k) /\ s.ord[k].status \notin {InFlightOf(P[i].kind), "COMPLETE"}}} :
+           i \in DOMAIN P}
 StatusStep(a, b) == {<<a.ord[o].status, b.ord[o].status>> : o \in DOMAIN a.ord \cap DOMAIN b.ord}
 =============================================================================
